@@ -315,6 +315,15 @@ class SpecEval:
         self._merge_pc(sub)
         return v
 
+    def c_entry(self, node):
+        """entry(p): the VALUE parameter p had at function entry (an object reference stays a reference; fields read through it
+        are read in the current state, unlike old(p.f))"""
+        base = self.pre if self.pre is not None else self.st.old
+        n = node.args[0].id
+        if base is None or n not in base.env:
+            raise Unsupported(f"entry({n}): not a parameter")
+        return base.env[n]
+
     def c_at_loop_entry(self, node):
         le = self.st.loop_entry
         if le is None:
